@@ -27,6 +27,7 @@ PROPS["C18"] = {
 
 PROPS["C02"] = {
     "kani": "c02",
+    "mir": "c02",
     "level": "model_checking",
     "explanation": "Bounded model checking (Kani/CBMC) of the real row-level predicate code on both storage tiers: NumericCondition / LogicalCondition evaluated over the real typed ColumnValues views (segment tier) and over a real Event (memory tier) are each compared with the mathematical comparison for every 64-bit value, literal and operator, so the two tiers are shown to agree; literal typing in add_where_clause is checked the same way.",
     "outside": [
@@ -39,10 +40,12 @@ PROPS["C02"] = {
 
 PROPS["C08"] = {
     "kani": "c08",
+    "native_validate": [{"id": "N-1", "args": ["triecheck"],
+                         "desc": "the trie arrays the SuRF probe harnesses (A-5*) start from equal SurfTrie::build_from_sorted for every pair of 3-byte keys over the alphabet {0,1,2,127,128,255} (23436 pairs), native dev build"}],
     "level": "model_checking",
     "explanation": "Bounded model checking (Kani/CBMC) of the pruning kernels that are executable symbolically: the order-preserving key encodings shared by the SuRF builder and the range probe (same-kind and cross-kind literals), the per-zone time index (builder invariant + query side from any state satisfying it) and the calendar's bucket arithmetic. Soundness is asserted as: whenever a stored value satisfies the probe, the structure's comparison keeps the zone.",
     "outside": [
-        "the trie itself (SurfTrie::build_from_sorted uses a HashMap; 16-lane SIMD child scan), so probe soundness is shown at the level of the byte keys the trie orders lexicographically",
+        "the trie builder under the solver (SurfTrie::build_from_sorted uses a HashMap): the probe harnesses start from hand-written trie arrays that a native run compares with the real builder; keys longer than 3 bytes, more than two keys per zone, the 16-lane SIMD child scan (needs >= 16 children)",
         "enum bitmaps, calendar index (HashMap<u32,RoaringBitmap>, incl. the u32 bucket-id truncation and the min_ts >= 0 insertion guard in the async builder), XOR / binary-fuse filters, context index, index catalog, the >90% fallback rule: HashMap / roaring / xorf / I-O bound",
         "strings and booleans as range keys; floats with |x| >= 9e18 (u64 / f64 fall-back lanes)",
         "bucket arithmetic beyond 2^34 epoch seconds under Kani (bit-blasted constant dividers)",
@@ -169,14 +172,26 @@ PROPS["C17"] = {
     ],
 }
 
+PROPS["C07"] = {
+    "kani": "c07",
+    "mir": "c07",
+    "level": "model_checking",
+    "explanation": "Bounded model checking (Kani/CBMC) of the value path both tiers share: JSON number / bool / null -> ScalarValue -> JSON is the identity over the full i64 / u64<=i64::MAX / f64 ranges, and the segment tier's cell-to-value mapping (EventBuilder::add_field_i64/u64/f64/bool/null and the string-cell mapping) yields exactly the value the memory tier holds, including strings that look like numbers, booleans or null; plus a MIR data-flow obligation that the segment reader passes string cells to the text-preserving entry point.",
+    "trusted_base": MIR_TRUSTED,
+    "outside": [
+        "strings longer than 3 bytes / non-ASCII, u64 above i64::MAX (decimal-string representation; serde_json::from_str does not finish under Kani)",
+        "LZ4, mmap, column block layout and the writer (ColumnGroupBuilder: HashMap), WAL JSON lines, RETURN projection, compaction / restart tiers",
+        "the streaming flow path's typed batches (arrow / ColumnBatch)",
+    ],
+}
+
 # Properties not (or not yet) claimed, each with the reason. Entries are removed from here
 # when a check for the property is registered in PROPS.
 NOT_APPLICABLE = {
     "C04": "order is decided by schedules of concurrent flows, BinaryHeap tie-breaking over HashMap-materialised rows and a BTreeMap<String,Vec<Event>> memtable; none of these finishes under Kani (3-row merger > 25 min, 3 inserts > 15 min) and no schedule explorer belongs to this technique",
-    "C06": "check not built yet",
-    "C07": "check not built yet",
-    "C12": "check not built yet",
-    "C14": "check not built yet",
+    "C06": "validate_payload / type_allows_value operate on serde_json::Value and schemas held in HashMaps: Value's recursive PartialEq/Clone/drop glue alone exceeds 600 s / 9 GB under Kani, and acceptance is a data relation, not a guard/ordering fact the MIR engine can state; the one decidable ordering fact (a failed or repeated DEFINE leaves the registry unchanged) is decided under C01 B-6/B-6b",
+    "C12": "the routing hash sits behind ShardManager (tokio senders) and its stability across process lifetimes is a fact about DefaultHasher that no symbolic run observes; fan-out completeness is async; the only reachable kernel (shard tag of event ids) is already decided under C18 A-1/A-3 and alone would be too thin a claim",
+    "C14": "everything the statement quantifies over is history-dependent (late events at the high-water second, frame store, pruning by zone creation time, flush barrier) and lives in async / HashMap code; the high-water-mark comparison kernel alone would be a vacuous claim",
     "C15": "group.rs/matcher.rs operate on HashMap<String, GroupedRowIndices> and HashMap-backed candidate zones; at 3-4 min per hash-map operation under Kani no harness with two events per side finishes, and the two-pointer sweep is a data-dependent loop the MIR path engine cannot summarise",
     "C20": "encoders are arrow array builders, serde_json/sonic writers and String formatting over Vec<ScalarValue> batches; none finishes under Kani (serde_json probe exhausted 30 GB) and the equivalence is a data relation, not a guard/ordering fact the MIR engine can state",
 }
